@@ -9,7 +9,7 @@ Import ListNotations.
 Local Open Scope R_scope.
 
 (* total_length >= 0; path_centroid is the length-weighted mean of the segment midpoints (c * L = sum len_i * mid_i),
-   refused exactly when the total length is zero. (That segment_lengths are the Euclidean lengths and total_length
+   answers whenever the total length is not zero and is refused exactly when it is zero. (That segment_lengths are the Euclidean lengths and total_length
    their sum is the shape of the model: see the definitional block at the end; content by the tie lengths_centroid_n4.) *)
 Theorem C08_lengths_sum_centroid : forall pl,
   0 <= total_length ROps pl /\
@@ -17,8 +17,9 @@ Theorem C08_lengths_sum_centroid : forall pl,
      total_length ROps pl <> 0 /\
      vscale ROps (total_length ROps pl) c =
        vsum ROps (map (fun s => vscale ROps (seg_len ROps s) (vscale ROps (1 / 2) (vadd ROps (fst s) (snd s)))) (pl_segments pl))) /\
+  (total_length ROps pl <> 0 -> exists c, path_centroid ROps pl = Ok c) /\
   (total_length ROps pl = 0 -> path_centroid ROps pl = Raise ZeroDivisionError).
-Proof. exact centroid_spec. Qed.
+Proof. exact centroid_spec_total. Qed.
 
 (* ---- point_along_path ---- *)
 (* the segments of a polyline form a chain that starts at the first vertex (what makes `walk` a walk along the path) *)
@@ -107,6 +108,16 @@ Theorem C08_subdivide_originals_at_indices : forall pl mx mask r k v, subdivided
                  (match mask with Some m => m | None => repeat true (length (pl_segments pl)) end)) k = Some il /\
     (forall j p, nth_error il j = Some p -> nth_error (pv (fst r)) (S (i + j)) = Some p).
 Proof. exact subdivide_originals_at_indices. Qed.
+(* ... where the list of edge k is edge_inserts of that edge (so _untouched / _inserted_even / _minimal_parts apply to
+   it), and nothing follows the last vertex of an open polyline *)
+Theorem C08_subdivide_inserts_of_edge : forall pl mx m k b s,
+  nth_error m k = Some b -> nth_error (pl_segments pl) k = Some s ->
+  nth_error (inserts_per_vertex ROps pl mx m) k = Some (edge_inserts ROps mx b s).
+Proof. exact inserts_per_vertex_nth. Qed.
+Theorem C08_subdivide_inserts_after_last_open_vertex : forall pl mx m h t,
+  pv pl = h :: t -> pclosed pl = false -> length m = length (pl_segments pl) ->
+  nth_error (inserts_per_vertex ROps pl mx m) (length t) = Some [].
+Proof. exact inserts_per_vertex_last. Qed.
 Theorem C08_subdivide_mask_refused : forall pl mx m, length m <> length (pl_segments pl) ->
   subdivided_by_length ROps pl mx (Some m) = Raise ValueError.
 Proof. exact subdivide_mask_refused. Qed.
@@ -141,6 +152,13 @@ Theorem C08_bisect_new_indices : forall pl idx r, bisect ROps pl idx = Ok r ->
   (forall j i s, nth_error idx j = Some i -> nth_error (pl_segments pl) i = Some s ->
      exists m, nth_error (snd r) j = Some m /\ nth_error (pv (fst (fst r))) m = Some (seg_mid ROps s)).
 Proof. exact bisect_new_indices. Qed.
+(* ... and the reported indices are pairwise distinct: originals, inserted points (also for a segment listed twice),
+   and originals against inserted points — together with the theorem above they partition the new vertex list *)
+Theorem C08_bisect_indices_distinct : forall pl idx r, bisect ROps pl idx = Ok r ->
+  (forall k k' i i', k <> k' -> nth_error (snd (fst r)) k = Some i -> nth_error (snd (fst r)) k' = Some i' -> i <> i') /\
+  (forall j j' m m', j <> j' -> nth_error (snd r) j = Some m -> nth_error (snd r) j' = Some m' -> m <> m') /\
+  (forall k j i m, nth_error (snd (fst r)) k = Some i -> nth_error (snd r) j = Some m -> i <> m).
+Proof. exact bisect_indices_distinct. Qed.
 
 (* ---- subdivide_segment / subdivide_segments ---- *)
 Theorem C08_subdivide_segment_spec : forall p1 p2 (num : Z) endpoint, (2 <= num)%Z ->
@@ -194,7 +212,7 @@ Proof.
   unfold seg_len. apply P_vec.vnorm_pos. cbn [fst snd]. P_vec.vunf. intros Hv. injection Hv as H1 H2 H3. lra.
 Qed.
 
-Definition C08_all := (C08_lengths_sum_centroid, C08_segment_lengths_shape, C08_point_along_path_no_segment, C08_subdivide_originals_at_indices, C08_segments_form_a_chain, C08_point_along_path_spec,
+Definition C08_all := (C08_lengths_sum_centroid, C08_subdivide_inserts_of_edge, C08_subdivide_inserts_after_last_open_vertex, C08_bisect_indices_distinct, C08_segment_lengths_shape, C08_point_along_path_no_segment, C08_subdivide_originals_at_indices, C08_segments_form_a_chain, C08_point_along_path_spec,
   C08_point_along_path_f0, C08_point_along_path_f1, C08_path_end_is_end_of_last_segment, C08_walk_past_end,
   C08_walk_lipschitz, C08_point_along_path_continuous, C08_point_along_path_stacked,
   C08_point_along_path_out_of_range, C08_subdivide_minimal_parts, C08_subdivide_untouched,
